@@ -8,7 +8,9 @@ spec/redis/ConnTable.tla: backend connection table + shared connect calls + clie
     restarted on the same port; per request the reply class is compared with what the model allows
     (error only if the request witnessed a fault), then the proxy must serve requests again over a new
     connection, hold at most one backend connection per node, and none after Stop;
- 4. layout change: after slots move between nodes, redirections stop after a bounded number of refresh rounds.
+ 4. spec/redis/Refresh.tla (trigger channel, refresh loop, retry, minimum interval): Converges, BoundedRounds (at most two
+    successful rounds after the last layout change), NoLostTrigger, QuitEnds; code: after each layout change the number of
+    refresh rounds until redirections stop is read from the service's statistics and compared with the bound.
 """
 import os
 
@@ -32,6 +34,8 @@ def run(ctx):
            expect_violated=["NoOrphanClient"], count=False)
     ctx.mc("redis", "ConnTable", "MC_ConnTable_pinned_reset.cfg", workers=4, timeout=300,
            expect_violated=["NoOrphanClient"], count=False)
+    # the refresh loop: one-slot trigger channel, retry on failure, minimum interval; convergence within two rounds
+    ctx.mc("redis", "Refresh", "MC_Refresh.cfg", workers=4, timeout=300)
     num = 300 if ctx.thorough else 40
     g = ctx.tlc("redis", "ConnTableGen", "Gen_ConnTable.cfg", mode="sim", workers=1, sim_num=num, sim_depth=150,
                 seed=ctx.seed, deadlock=False, timeout=300)
@@ -81,6 +85,20 @@ def run(ctx):
                           "%d of %d reachable backends keep failing after %s: %s" % (len(r["failing"]), r["nodes"], r["fault"], r["failing"][:3]), r)
         elif r["maxConns"] > 1:
             ctx.violation("orphan-backend-connection/simultaneous-loss", "%d backend connections open to one node" % r["maxConns"], r)
+        else:
+            ctx.cov["traces_validated_against_impl"] += 1
+    # layout changes: redirections stop within the refresh rounds Refresh.tla allows
+    ctx.build("cluster")
+    vfile = os.path.join(ctx.work, "converge.ndjson")
+    ctx.harness(["cluster-converge", "-out", vfile, "-changes", "60" if ctx.thorough else "10"], timeout=900, name="cluster")
+    for r in kit.read_ndjson(vfile):
+        ctx.case(key=["converge", r["change"], r["rounds"], r["redirects"]], nontrivial=True)
+        if r.get("err"):
+            ctx.violation("reply-differs/after-layout-change", r["err"], r)
+        elif not r["converged"]:
+            ctx.violation("no-convergence/layout-change", "still redirected after %d requests and %d refresh rounds" % (r["requests"], r["rounds"]), r)
+        elif r["rounds"] > 2:
+            ctx.violation("too-many-refresh-rounds/layout-change", "%d successful refresh rounds until redirections stopped (model: at most 2)" % r["rounds"], r)
         else:
             ctx.cov["traces_validated_against_impl"] += 1
     if results:
